@@ -62,6 +62,13 @@ Theorem C12_only_accessors :
   && negb (raw (SBlock skel_NewTask)) = true.
 Proof. vm_compute. reflexivity. Qed.
 
+(* no function of the library or of the components assigns to a package-level variable, except InitLog, which sets the
+   loggers when the workflow object is created, before any goroutine of the run exists: there is no shared memory outside
+   the structures whose access discipline is checked above (evaluated on the table regenerated from the source) *)
+Theorem C12_no_writes_to_package_variables :
+  forallb (fun p => String.eqb (fst p) "InitLog") global_writes = true.
+Proof. vm_compute. reflexivity. Qed.
+
 (* the predicate is not vacuous: the pre-repair shape of AddTag (no lock around the map write) is rejected (defect D6) *)
 Theorem C12_tags_refuted_before_repair :
   guarded "ip.lock" ".Tags" [SCall "ip.AuditInfo"; SIf "ai.Tags[k] != """" && ai.Tags[k] != v" [SFail] []; SAssign "ai.Tags[k]"] = false.
@@ -72,4 +79,5 @@ Print Assumptions C12_lockset_sound.
 Print Assumptions C12_discipline_tags.
 Print Assumptions C12_discipline_ports_and_slots.
 Print Assumptions C12_only_accessors.
+Print Assumptions C12_no_writes_to_package_variables.
 Print Assumptions C12_tags_refuted_before_repair.
